@@ -40,11 +40,28 @@ def cases(draw):
     i, j, tuple_el = draw(st.integers(0, 7)), draw(st.integers(0, 7)), draw(st.booleans())
     ka = draw(st.sampled_from(KINDS))
     kb = draw(st.sampled_from(KINDS))
+    if draw(st.integers(0, 2)) == 2:
+        # one case in three pairs two dtypes of one kind (float32 with float64, datetime64[D] with [s], <U1 with <U8 ...): the
+        # pairings where a value fits the kind of its destination but not its width or unit
+        kb = draw(st.sampled_from([k for k in KINDS if gen.np_dtype(k).kind == gen.np_dtype(ka).kind]))
     if {_str_or_bytes(ka), _str_or_bytes(kb)} == {'str', 'bytes'}:
         kb = ka
     n = draw(st.integers(1, 4))
+    curated = draw(st.integers(0, 7)) == 7
+    if curated:
+        # one case in eight: a partly missing narrow column meets values of the same kind that only the wider dtype / finer unit holds
+        op = draw(st.sampled_from(('f_overlay', 's_overlay', 'f_fillna', 's_fillna_series', 'f_assign_series', 's_assign_series')))
+        ka, kb, odd = draw(st.sampled_from([('float32', 'float64', 0.1), ('float16', 'float64', 70000.0), ('M8[D]', 'M8[s]', np.datetime64('2019-05-05T10:20:30')),
+                                            ('m8[D]', 'm8[s]', np.timedelta64(90, 's')), ('complex64', 'complex128', 0.1 + 0.3j), ('float32', 'float64', 1e-9)]))
+        n = draw(st.integers(2, 4))
     a = draw(st.lists(gen.elements(ka, missing=True, boundary=True), min_size=n, max_size=n))
     b = draw(st.lists(gen.elements(kb, missing=True, boundary=True), min_size=n, max_size=n))
+    if curated:
+        miss = {'f': float('nan'), 'c': complex('nan'), 'M': np.datetime64('NaT'), 'm': np.timedelta64('NaT')}[gen.np_dtype(ka).kind]
+        a = [miss] + [x for x in a[1:]]
+        if all(is_missing(x) for x in a[1:]):
+            a[-1] = draw(gen.elements(ka, missing=False))
+        b = [odd] + b[1:]
     return {'op': op, 'ka': ka, 'kb': kb, 'a': gen.to_array(ka, a), 'b': gen.to_array(kb, b), 'i': i, 'j': j, 'tuple_el': tuple_el}
 
 
